@@ -399,9 +399,9 @@ def gen_energy(rng):
     below one epoch of decay, tokens without energy, energy without tokens, tiny"""
     cls = rng.random()
     tok = log_amount(rng, 10 ** 24)
-    if cls < 0.30:
+    if cls < 0.42:
         return tok * rng.randint(30, 1440) + rng.randint(0, tok), tok
-    if cls < 0.55:
+    if cls < 0.60:
         return tok * rng.randint(1, 35) + rng.choice([0, 0, 1, tok - 1, rng.randint(0, tok)]), tok
     if cls < 0.67:
         return EPOCHS_IN_WEEK * tok * rng.randint(1, 6), tok
@@ -524,13 +524,13 @@ def gen_op(rng, w, st):
     if len(without) > 1 and rng.random() < 0.35:
         return set_energy(rng.choice(without))
     roll = rng.random()
-    if roll < 0.27:
-        return ["Advance", rng.choice([1, 3, 7, 7, 7, 7, 7, 7, 8, 14, 14, 21, 28, 35, 42, 70])]
-    if roll < 0.36:
+    if roll < 0.24:
+        return ["Advance", rng.choice([1, 3, 7, 7, 7, 7, 7, 7, 7, 7, 8, 14, 14, 21, 35, 70])]
+    if roll < 0.31:
         return set_energy(rng.choice(USERS + [PROXY] if rng.random() < 0.05 else USERS))
-    if roll < 0.49:
+    if roll < 0.42:
         return valid_deposit(rng, w)
-    if roll < 0.59:
+    if roll < 0.52:
         cand = [u for u in USERS if s["prog"].get(u)] or USERS
         u = rng.choice(cand if rng.random() < 0.7 else USERS)
         kind = rng.random()
@@ -541,9 +541,9 @@ def gen_op(rng, w, st):
         if kind < 0.97:
             return ["Claim", PROXY, u, False]
         return ["Claim", PROXY, None, False]
-    if roll < 0.62:
+    if roll < 0.55:
         return ["UpdateEnergy", rng.choice(USERS + [OWNER]), rng.choice(USERS)]
-    if roll < 0.88:
+    if roll < 0.90:
         return malformed_op(rng, w, st)
     return admin_op(rng, w, OWNER)
 
